@@ -194,6 +194,29 @@ def sends_via(r, body, blocks=None):
     return out
 
 
+def extend_input_fns(f):
+    """the functions that add resources to a target's input: local fns taking (&mut Target, &Resources) - by what they take, not by their name - and the
+    wrappers around them that take the producing target instead (`extend_input_with_output_of(&mut self, producer: &Target)`)"""
+    if hasattr(f, "_extend_input_fns"):
+        return f._extend_input_fns
+    base = set()
+    for b in f.user_bodies():
+        if b.kind in ("Fn", "AssocFn") and b.argc == 2 and re.search(r"^&mut [\w:]*Target$", b.locals[1]["ty"]) and re.search(r"^&[\w:]*Resources$", b.locals[2]["ty"]):
+            base.add(b.name)
+    wrappers = set()
+    for b in f.user_bodies():
+        if b.kind in ("Fn", "AssocFn") and b.argc == 2 and b.name not in base and re.search(r"^&mut [\w:]*Target$", b.locals[1]["ty"]) and re.search(r"^&[\w:]*Target$", b.locals[2]["ty"]) \
+                and base & f.cg.reach([b.name], cross_spawn=False):
+            wrappers.add(b.name)
+    f._extend_input_fns = (base, wrappers)
+    return f._extend_input_fns
+
+
+def is_extend_input(f, name):
+    base, wrappers = extend_input_fns(f)
+    return name in base or name in wrappers
+
+
 def fanout_fns(r, field):
     """helper methods that loop over `field` (requesters / dependencies) and call the send_to_actor role inside the loop"""
     fns = {r.fn_of(b).name for b in r.senders_to_actor()}
